@@ -236,6 +236,8 @@ def eval_modifies(I, ct, env, heap):
             d = I.ev(node.value, fr)
             if isinstance(d, SpecOpt):
                 d = d.value
+            if isinstance(d, LibObj) and d.kind == "local_dict":
+                d = d.obj(I)
             key = None
             if not (isinstance(node.slice, ast.Constant) and node.slice.value is Ellipsis):
                 key = I.to_term(I.ev(node.slice, fr), d.typ.args[0])
@@ -426,6 +428,10 @@ def verify_unit(world, func, ct, receiver=None, unit_name=None, setup=None, max_
         if ctx.solver.check() == z3.unsat:
             raise Unsupported(f"{unit_name}: requires is unsatisfiable (vacuous contract)")
         fs = eval_modifies(I, ct, env, heap0)
+        if getattr(ct, "closure_params", None):
+            cf = Frame(None, world.modules[func.module].ns)
+            cf.locals = {k: args_env[k] for k in ct.closure_params}
+            func.closure = cf
         sig = func.node.args
         pnames = [p.arg for p in sig.posonlyargs + sig.args]
         args = [args_env[p] for p in pnames]
@@ -478,6 +484,10 @@ def verify_unit(world, func, ct, receiver=None, unit_name=None, setup=None, max_
             if okey in fd.get("outcomes", ["normal"]) and k in env2 and isinstance(env2[k], Obj):
                 when = eval_bool(I, fd.get("when", "True"), env2, heap0, heap0)
                 check_goal(I, z3.Implies(when, z3.Not(z3.Select(I.alive(heap0), env2[k].ref))), f"fresh/{k}", "helper", unit_name)
+        hook = getattr(ct, "exit_hook", None)
+        if hook is not None:  # obligations generated from what the path did (e.g. one crash condition per file-system effect)
+            for name, tag, goal in hook(I, outcome, heap0, heap1):
+                check_goal(I, goal, name, tag, unit_name)
         for name, goal in frame_goals(I, fs, heap0, heap1):
             check_goal(I, goal, name, "helper", unit_name)
         if ct.check_wf:
@@ -719,12 +729,19 @@ def exec_while(I, s, fr):
     test = I.ev(s.test, fr)
     if test is not True:
         raise Unsupported("while loop with a non-constant condition")
+    head = I.c.heap.snapshot()
     try:
         I.block(s.body, fr)
     except BreakSig:
         return
     except ContinueSig:
         pass
+    lc = I.w.loops.get((fr.func.qualname, loop_ordinal(fr.func, s))) if fr.func is not None else None
+    if lc is not None:  # obligations of one full iteration, checked at the back edge
+        env = dict(I.c.env)
+        env.update(fr.locals)
+        for cl in lc.step:
+            check_goal(I, eval_bool(I, cl.text, env, I.c.heap, head), f"{cl.id}/iteration", cl.tag, getattr(I, "unit_name", ""))
     raise PathEnd("loop-back")
 
 
